@@ -9,6 +9,12 @@ CLAIMS = {
         'note': 'Trusted: TLC, harness projection (2^-16 unit quantisation, next_up/next_down for the infinitesimals). Edge lengths are integers times 2^k; irrational edge lengths are not in the exact domain. Vertices where adjacent directions cancel are exempt from the direction clause.',
         'technique': TECH,
     },
+    'C04': {
+        'text': 'A TLA+ history machine (root curve, then between / by-control / split_open / split_closed / trim_front / trim_back / reversed, each applied to the previous result) carries the abstract current curve as a stretch (start, travel, sense) of the root; TLC checks its conservation laws (pieces meet and add up, reversal is an involution, ends stay in range) in every reachable state, enumerates every depth-1 behaviour over all half-lattice parameters (including on vertices, on the seam, same edge, zero travel, reversed on open, out of range by half a unit) for a curated root set (closed square/rectangle/3-4-5 triangle, open L, collinear run, doubling back, self-crossing, seam in mid-edge) and samples depth-5 histories in simulation mode; every behaviour is replayed into Curve2 and TLC judges each step: None exactly for ill-posed requests, otherwise end points, length, closedness and the traced path (vertex list modulo straight-through vertices) against the exact rational stretch; split pieces meet and sum.',
+        'design_ref': 'DESIGN.md section 6 C04',
+        'note': 'Trusted: TLC, harness projection (1/640 unit quantisation), derived curves closed only by self-touching of an open root are excluded from histories, tolerance tiny so only zero travel exercises the tolerance guard. airfoil helper consumers are not driven here.',
+        'technique': TECH,
+    },
     'C18': {
         'text': 'TLC enumerates every lattice angle k*TAU/16 (|k|<=40/64, each +-1 ulp), every pair for directed angles, all pairs of lattice vectors in [-2,2]^2, every (start, extent) angular interval on Z_16 x -18..18 against 72 test angles, the full intersects table and all scalar intervals over {-inf,-2..2,+inf}; checks the arc/interval algebra laws on the spec; every case is executed by the real library and TLC judges each observation against the L1 set semantics (results free only within ANGLE_TOL of arc ends). Random finite angles up to 1e6 are judged through sin/cos agreement. This is the right level because the property is a finite case analysis around wrap points that the lattice hits exactly.',
         'design_ref': 'DESIGN.md section 6 C18',
